@@ -734,6 +734,30 @@ def install(interp):
             return np.all(a, *rest, **kw)
         r(np.any, np_any)
         r(np.all, np_all)
+
+        def np_array(interp, a, *rest, **kw):
+            from .qmodel import Quantity
+            if isinstance(a, (Sym, Quantity)):
+                return a            # a 0-d array of one scalar behaves like the scalar
+            return np.array(a, *rest, **kw)
+
+        def np_asarray(interp, a, *rest, **kw):
+            from .qmodel import Quantity
+            if isinstance(a, (Sym, Quantity)):
+                return a
+            return np.asarray(a, *rest, **kw)
+        r(np.array, np_array)
+        r(np.asarray, np_asarray)
+
+        def np_opaque(name):
+            def f(interp, *args, **kw):
+                from .qmodel import NPCall
+                if contains_sym(args) or contains_sym(kw):
+                    return NPCall(name, args, kw)
+                return getattr(np, name)(*args, **kw)
+            return f
+        for nm in ("linspace", "concatenate", "tile", "polyfit", "polyval", "log2", "exp2"):
+            r(getattr(np, nm), np_opaque(nm))
         for name, canon in (("exp", "exp"), ("log", "log"), ("sqrt", "sqrt"), ("tanh", "tanh"), ("log10", "log10"),
                             ("sin", "sin"), ("cos", "cos"), ("arctanh", "atanh"), ("log2", "log2")):
             r(getattr(np, name), real_fun(canon, getattr(np, name), numpy_like=True))
